@@ -10,6 +10,7 @@ import (
 	"os"
 	"path/filepath"
 	"sort"
+	"sync/atomic"
 	"time"
 
 	"github.com/superfly/litefs"
@@ -327,5 +328,84 @@ func haltReleaseUnderReader(c *common.Ctx, r *common.Rand) error {
 	}
 	_ = rdb.Unlock(bg, owner, []litefs.LockType{litefs.LockTypeShared, litefs.LockTypeRead1, litefs.LockTypeDMS})
 	_ = rdb.ReleaseRemoteHaltLock(bg, 91)
+	return nil
+}
+
+// haltRecoveryFails: granting a halt lock includes a recovery step (journal rollback / checkpoint under the write lock).
+// If that step fails the request fails, and nothing of a grant stays behind: no lock is registered, the write lock is
+// free again, and a later request with the same id gets a real lock - one that keeps local connections out.
+func haltRecoveryFails(c *common.Ctx, r *common.Rand) error {
+	dir, err := os.MkdirTemp(c.OutDir, "c11h-")
+	if err != nil {
+		return err
+	}
+	defer os.RemoveAll(dir)
+	ros := &lfs.RecOS{}
+	var failOnce atomic.Bool
+	ros.Fail = func(call lfs.OSCall) error {
+		if call.Op == "ROLLBACKJOURNAL" && call.Fn == "openfile" && failOnce.CompareAndSwap(true, false) {
+			return fmt.Errorf("injected: input/output error")
+		}
+		return nil
+	}
+	n, err := lfs.Open(dir, true, func(s *litefs.Store) {
+		s.OS = ros
+		s.HaltAcquireTimeout = 300 * time.Millisecond
+		s.HaltLockTTL = time.Minute
+		s.HaltLockMonitorInterval = time.Hour
+	})
+	if err != nil {
+		return err
+	}
+	defer n.Close()
+	h := hist.NewOn(c, r.Fork(), hist.Config{PageSize: 512}, n.Store, n.Exits, "db", nil, 0, false)
+	for done, tries := 0, 0; done < 2 && tries < 200; tries++ {
+		st := h.GenStep()
+		if st.Op != "rtx" {
+			continue
+		}
+		st.Outcome, st.ToWAL = 0, false
+		if ob := h.Exec(st); ob.Captured && ob.Err == "" {
+			done++
+		}
+	}
+	db := n.Store.DB("db")
+	if db == nil {
+		return fmt.Errorf("no database")
+	}
+	ctx := context.Background()
+	failOnce.Store(true)
+	_, err1 := db.AcquireHaltLock(ctx, 61)
+	c.Evaluations++
+	c.Distinct("halt-recovery-fails")
+	rep := map[string]any{"kind": "halt-recovery-fails"}
+	if err1 == nil {
+		// the fault did not hit (no journal to open): nothing to judge
+		if id := db.VerifHaltLockID(); id != 0 {
+			db.ReleaseHaltLock(ctx, id)
+		}
+		return nil
+	}
+	if id := db.VerifHaltLockID(); id != 0 {
+		c.Violate("C11:halt-recovery-fails:registered", fmt.Sprintf("the halt lock request failed (%v) and halt lock %d is registered all the same", err1, id), rep)
+	}
+	free, _ := db.TryLocks(ctx, 9, []litefs.LockType{litefs.LockTypeReserved})
+	_ = db.Unlock(ctx, 9, []litefs.LockType{litefs.LockTypeReserved})
+	if !free {
+		c.Violate("C11:halt-recovery-fails:pinned", "the halt lock request failed and the write lock stays pinned", rep)
+	}
+	// the retry (same id) is a real grant
+	hl, err2 := db.AcquireHaltLock(ctx, 61)
+	if err2 != nil || hl == nil {
+		c.Violate("C11:halt-recovery-fails:retry", fmt.Sprintf("a retry with the same id after the failed request is refused: %v", err2), rep)
+		return nil
+	}
+	got, _ := db.TryLocks(ctx, 9, []litefs.LockType{litefs.LockTypeReserved})
+	rd := db.TryRLocks(ctx, 9, []litefs.LockType{litefs.LockTypeShared})
+	_ = db.Unlock(ctx, 9, []litefs.LockType{litefs.LockTypeReserved, litefs.LockTypeShared})
+	if got || rd {
+		c.Violate("C11:halt-recovery-fails:halt-without-locks", fmt.Sprintf("halt lock 61 was granted on the retry, yet a local connection takes RESERVED (%v) / SHARED (%v): the halt holds no locks", got, rd), rep)
+	}
+	db.ReleaseHaltLock(ctx, 61)
 	return nil
 }
